@@ -170,6 +170,7 @@ def run(ctx):
         ctx.report(r_dup, "generate_id:no-retry", "Storable::generate_id no longer retries when the generated id already exists", gid.file, gid.line)
 
     compact_rule(ctx, syn)
+    trunc_rule(ctx, syn)
 
     # ---------------- REIDX
     r_re = ctx.rule("C03.REIDX", "reindex(): every id map is remapped with the gap table of its own store, under the same emptiness guard; gaps()/Handle::reindex agree on the gap convention; indices mentioning a remapped handle type are remapped")
@@ -356,3 +357,41 @@ def compact_rule(ctx, syn):
             r.hit("pattern:" + key_pat, sample={"liveness": key_pat, "gaps": [(a, int(b)) for a, b in gaps], "idmap": dict((k, int(v["v"])) for k, v in cells.items())})
     r.hit("patterns", sample={"slots": N, "patterns": n})
     ctx.floor(r, n, 64, "liveness patterns")
+
+
+# ---------------------------------------------------------------------- TRUNC
+def trunc_rule(ctx, syn):
+    """resolve_id on a temporary id: the number in the id reaches the handle unchanged or the id does not
+    resolve - handle types are narrower than usize (u16 / u32), so `Handle::new(n)` alone truncates"""
+    from formula import Evaluator, Unknown, Panic, StructVal, some, is_some
+    r = ctx.rule("C03.TRUNC", "a temporary id whose number does not fit the handle type does not resolve (no silent truncation to another item's handle)")
+    fl = [f for f in syn.fns if f.name == "resolve_id" and f.file == "src/store.rs" and f.body is not None]
+    if len(fl) != 1:
+        ctx.anchor_missing(r, "fn StoreFor::resolve_id")
+        return
+    f = fl[0]
+    ctx.functions_analysed.add(f.qual)
+    for width, name in ((16, "u16 handles (keys, ...)"), (32, "u32 handles (annotations, data, ...)")):
+        hooks = {}
+        hooks["idmap"] = lambda ev, recv, args, node, env: some(StructVal("IdMap", {"resolve_temp_ids": True, "data": {}}))
+        hooks["call:T::temp_id_prefix"] = lambda ev, recv, args, node, env: "!K"
+        hooks["call:resolve_temp_id"] = lambda ev, recv, args, node, env: (some(int(args[0][2:])) if args[0][2:].isdigit() else None)
+        hooks["call:HandleType::new"] = lambda ev, recv, args, node, env, width=width: StructVal("Handle", {"v": args[0] % (1 << width)})
+        hooks["as_usize"] = lambda ev, recv, args, node, env: recv["v"] if isinstance(recv, StructVal) and recv.tyname == "Handle" else NotImplemented
+        hooks["get"] = lambda ev, recv, args, node, env: (some(recv[args[0]]) if args[0] in recv else None) if isinstance(recv, dict) and not isinstance(recv, StructVal) else NotImplemented
+        hooks["call:Self::store_typeinfo"] = lambda ev, recv, args, node, env: "type"
+        hooks["to_string"] = lambda ev, recv, args, node, env: recv if isinstance(recv, str) else NotImplemented
+        for n_ in (0, 7, (1 << width) - 1, 1 << width, (1 << width) + 3):
+            ident = "!K%d" % n_
+            try:
+                got = Evaluator(hooks=hooks).run_body(f.body, {"self": StructVal("Store", {}), "id": ident})
+            except (Unknown, Panic) as e:
+                ctx.report(r, "unevaluated", "resolve_id could not be evaluated (%s): that temporary ids are not truncated is not established" % e, f.file, f.line)
+                return
+            fits = n_ < (1 << width)
+            r.hit("%d:%s" % (width, ident), sample={"handle_width": width, "id": ident, "resolves_to": repr(got)})
+            isok = isinstance(got, tuple) and got and got[0] == "ok"
+            if fits and not (isok and got[1]["v"] == n_):
+                ctx.report(r, "fits:%d" % width, "resolve_id(%r) answers %r for %s although the number fits: temporary ids no longer resolve" % (ident, got, name), f.file, f.line)
+            if not fits and isok:
+                ctx.report(r, "truncates:%d" % width, "resolve_id(%r) resolves to handle %s for %s: the number does not fit the handle type and is truncated, so the id of no item resolves to another item" % (ident, got[1]["v"], name), f.file, f.line)
